@@ -250,11 +250,11 @@ PROPS = {
         "level_note": TRUSTED + "; a control byte other than CR/LF inside the value the handler itself passed to a helper is counted, not judged (it adds no header line and is outside a header helper's documented domain); the hang clause relies on the driver's watchdog.",
         "rule": "case = one connection script (1-4 requests) x config, or one (helper, attacker string); non-trivial = request that reached the handler or a distinct error class; distinct by (config, status/error class, accessor outcome) resp. (helper, byte class, string)",
         "subs": [
-            {"engine": "wire.survive", "mode": "plain", "shards": {Q: 16, T: 16}, "gomaxprocs": 1, "ulimit_kb": 1572864,
+            {"engine": "wire.survive", "oom_is_violation": True, "mode": "plain", "shards": {Q: 16, T: 16}, "gomaxprocs": 1, "ulimit_kb": 1572864,
              "env": {"MALLOC_ARENA_MAX": 1}, "min_nontrivial": {Q: 8000, T: 150000}, "timeout": {Q: 600, T: 3000}},
-            {"engine": "wire.inject", "mode": "plain", "shards": {Q: 16, T: 16}, "gomaxprocs": 1, "ulimit_kb": 1572864,
+            {"engine": "wire.inject", "oom_is_violation": True, "mode": "plain", "shards": {Q: 16, T: 16}, "gomaxprocs": 1, "ulimit_kb": 1572864,
              "env": {"MALLOC_ARENA_MAX": 1}, "min_nontrivial": {Q: 800, T: 1500}, "timeout": {Q: 300, T: 900}},
-            {"engine": "wire.survive", "mode": "race", "shards": {Q: 2, T: 4}, "tiers": [T], "timeout": {T: 3400}},
+            {"engine": "wire.survive", "oom_is_violation": True, "mode": "race", "shards": {Q: 2, T: 4}, "tiers": [T], "timeout": {T: 3400}},
         ],
     },
     "C12": {
